@@ -50,6 +50,7 @@ type Run struct {
 	callSites   int
 	Extra       map[string]interface{}
 	SelfTest    []string
+	Dry         bool // mutant run: print violated (rule, construct) pairs only
 }
 
 func NewRun(prop, tier string, seed int, verif string, prog *Program) *Run {
@@ -129,6 +130,14 @@ func loadKnown(verif string) ([]KnownFinding, error) {
 
 // Finish matches known findings, writes evidence and replay files, prints the verdict lines and returns the exit code.
 func (r *Run) Finish() int {
+	if r.Dry {
+		for _, o := range r.Obls {
+			if o.Verdict == "violated" || o.Verdict == "undecided" {
+				fmt.Printf("MUTANT-FIRES\t%s\t%s\t%s\n", o.Rule, o.Construct, o.Pos)
+			}
+		}
+		return 0
+	}
 	known, err := loadKnown(r.VerifDir)
 	if err != nil {
 		fmt.Println("error:", err)
@@ -252,6 +261,9 @@ func (r *Run) Finish() int {
 		r.Prop, r.Tier, len(r.Obls), discharged, len(matched), nviol, time.Since(r.Start).Seconds())
 	if nviol > 0 {
 		return 1
+	}
+	if r.Extra["selftest_failed"] == true {
+		return 2
 	}
 	return 0
 }
